@@ -12,11 +12,8 @@ I64MIN, I64MAX, U64MAX = -2**63, 2**63 - 1, 2**64 - 1
 I32MIN, I32MAX, U32MAX = -2**31, 2**31 - 1, 2**32 - 1
 
 # ---------------------------------------------------------------- known findings (sites/classes)
-S_LTGT = ("Rational::operator< / operator> (givrational.inl)", "compare() magnitude > 1 (limb counts differ)")
-S_INALIAS = ("Rational::operator+= / operator-= (const Rational&)", "argument is *this, denominator <> 1")
-S_QINV = ("QField<Rational>::inv(r,a)", "r aliases a")
-S_ND0 = ("Rational(const Integer& n, const Integer& d, int red)", "n = 0, red = 0")
-S_SUBN = ("Rational(double)", "negative subnormal")
+# (five earlier findings - operator< / >, += / -= self-alias, QField::inv(r,r), Rational(0,d,0), Rational(double) negative
+#  subnormal - are repaired in /repo; their sites are judged like every other site now)
 S_I64 = ("Rational(int64_t n, int64_t d)", "d < 0 and n or d = INT64_MIN")
 
 
@@ -248,8 +245,7 @@ def build_cases(rng, tier, cov):
         else:
             # reduction switched off for this call: sign-normalised pair as given, zero as 0/1
             e = (0, 1) if n == 0 else ((n, d) if d > 0 else (-n, -d))
-            add("ctor.nd.red", 1, [n, d, redarg], "mk_nd", [n, d, redarg], "raw", "%d %d" % e,
-                S_ND0[0] if n == 0 else None, S_ND0[1] if n == 0 else "")
+            add("ctor.nd.red", 1, [n, d, redarg], "mk_nd", [n, d, redarg], "raw", "%d %d" % e)
         # text
         sep = rng.choice(["/", "_/", "/_", "_/_", "__/__"])
         hasden = rng.chance(3, 4)
@@ -262,10 +258,8 @@ def build_cases(rng, tier, cov):
         bits, sgn, e, m = gen_double_bits(rng, cov)
         x = struct.unpack("<d", struct.pack("<Q", bits))[0]
         red = 0 if i % 7 == 0 else 1
-        bad = (e == 0 and m != 0 and sgn == 1)
         for v in ("ctor.double", "q.init.double"):
-            add(v, red, ["%016x" % bits], "of_double", [sgn, e, m], "rat", Fraction(x),
-                S_SUBN[0] if bad else None, S_SUBN[1] if bad else "")
+            add(v, red, ["%016x" % bits], "of_double", [sgn, e, m], "rat", Fraction(x))
     # ---- copies, unary operations, predicates, rounding
     for i in range(per):
         x = gen_rat(rng, 1, cov)
@@ -280,9 +274,8 @@ def build_cases(rng, tier, cov):
         add("q.neg.alias", 1, flat(x), "q_neg", flat(x), "ratc", -fx)
         add("q.negin", 1, flat(x), "q_negin", flat(x), "ratc", -fx)
         if x[0] != 0:
-            aliasbad = x != (1, 1)
             add("q.inv", 1, flat(x), "q_inv", [0] + flat(x), "ratc", 1 / fx)
-            add("q.inv.alias", 1, flat(x), "q_inv", [1] + flat(x), "ratc", 1 / fx, S_QINV[0] if aliasbad else None, S_QINV[1] if aliasbad else "")
+            add("q.inv.alias", 1, flat(x), "q_inv", [1] + flat(x), "ratc", 1 / fx)
             add("q.invin", 1, flat(x), "q_invin", flat(x), "ratc", 1 / fx)
         fl = fx.numerator // fx.denominator
         add("floor", 1, flat(x), "floor", flat(x), "raw", str(fl))
@@ -326,11 +319,8 @@ def build_cases(rng, tier, cov):
                 exp, kind = None, "throw"
             else:
                 exp, kind = f(fx, fx), "rat"
-            bad = sym in "+-" and x[0] != 0 and x[1] != 1 and red == 1
-            if sym in "+-" and red == 0 and x[0] != 0:
-                continue   # NoReduce: the aliased += / -= happen to be exact; the Reduce-mode defect is the finding
             for v in ("op" + sym + "=.alias", "q." + QNAME[sym] + "in.alias"):
-                add(v, red, flat(x), mop + "in", [1] + flat(x), kind, exp, S_INALIAS[0] if bad else None, S_INALIAS[1] if bad else "")
+                add(v, red, flat(x), mop + "in", [1] + flat(x), kind, exp)
         # machine int on one side
         k = rng.choice([0, 1, -1, 2, I32MIN, I32MAX, rng.range(-100, 100), rng.range(I32MIN, I32MAX)])
         fk = Fraction(k)
@@ -384,19 +374,19 @@ def directed_cases():
     add("cmpall", 1, [1, 3, big, 3], "cmpall", [1, 3, big, 3], "cmp", (-1, -1))
     add("cmpall", 1, [-big, 3, -1, 3], "cmpall", [-big, 3, -1, 3], "cmp", (-1, 1))
     add("cmpall", 1, [1, 3, 2, 3], "cmpall", [1, 3, 2, 3], "cmp", (-1, -1))
-    add("op+=.alias", 1, [1, 2], "addin", [1, 1, 2], "rat", Fraction(1), S_INALIAS)
-    add("op-=.alias", 1, [1, 2], "subin", [1, 1, 2], "rat", Fraction(0), S_INALIAS)
+    add("op+=.alias", 1, [1, 2], "addin", [1, 1, 2], "rat", Fraction(1))
+    add("op-=.alias", 1, [1, 2], "subin", [1, 1, 2], "rat", Fraction(0))
     add("op+=.alias", 1, [3, 1], "addin", [1, 3, 1], "rat", Fraction(6))
-    add("q.inv.alias", 1, [2, 3], "q_inv", [1, 2, 3], "ratc", Fraction(3, 2), S_QINV)
-    add("q.inv.alias", 1, [-1, 1], "q_inv", [1, -1, 1], "ratc", Fraction(-1), S_QINV)
+    add("q.inv.alias", 1, [2, 3], "q_inv", [1, 2, 3], "ratc", Fraction(3, 2))
+    add("q.inv.alias", 1, [-1, 1], "q_inv", [1, -1, 1], "ratc", Fraction(-1))
     add("q.inv.alias", 1, [1, 1], "q_inv", [1, 1, 1], "ratc", Fraction(1))
-    add("ctor.nd.red", 1, [0, 5, 0], "mk_nd", [0, 5, 0], "raw", "0 1", S_ND0)
-    add("ctor.nd.red", 1, [0, -5, 0], "mk_nd", [0, -5, 0], "raw", "0 1", S_ND0)
+    add("ctor.nd.red", 1, [0, 5, 0], "mk_nd", [0, 5, 0], "raw", "0 1")
+    add("ctor.nd.red", 1, [0, -5, 0], "mk_nd", [0, -5, 0], "raw", "0 1")
     add("ctor.nd.red", 1, [6, -4, 0], "mk_nd", [6, -4, 0], "raw", "-6 4")
-    add("ctor.double", 1, ["8000000000000001"], "of_double", [1, 0, 1], "rat", Fraction(-1, 2**1074), S_SUBN)
+    add("ctor.double", 1, ["8000000000000001"], "of_double", [1, 0, 1], "rat", Fraction(-1, 2**1074))
     add("ctor.double", 1, ["0000000000000001"], "of_double", [0, 0, 1], "rat", Fraction(1, 2**1074))
     add("ctor.double", 1, ["8000000000000000"], "of_double", [1, 0, 0], "rat", Fraction(0))
-    add("ctor.double", 1, ["800fffffffffffff"], "of_double", [1, 0, 2**52 - 1], "rat", Fraction(-(2**52 - 1), 2**1074), S_SUBN)
+    add("ctor.double", 1, ["800fffffffffffff"], "of_double", [1, 0, 2**52 - 1], "rat", Fraction(-(2**52 - 1), 2**1074))
     add("ctor.i64pair", 1, [1, I64MIN], "mk_i64", [1, I64MIN], "ratc", Fraction(1, I64MIN), S_I64)
     add("ctor.i64pair", 1, [I64MIN, -1], "mk_i64", [I64MIN, -1], "ratc", Fraction(I64MIN, -1), S_I64)
     add("ctor.i64pair", 1, [I64MIN, 2], "mk_i64", [I64MIN, 2], "ratc", Fraction(I64MIN, 2))
@@ -432,7 +422,7 @@ def run_cases(chk, cases, himpl, drv):
         if mout is not None:
             ncorr += 1
             mg = mout[i].strip()
-            if mg != got:
+            if mg != got and not bad:      # impl != oracle is already reported as a failing input
                 chk.broke("correspondence model/implementation differs on %s red=%d args=%s: model=%s impl=%s"
                           % (c["variant"], c["red"], c["iargs"], mg[:300], got[:300]))
             else:
@@ -494,11 +484,8 @@ def judge(c, got):
                 out.append(("Rational::operator" + name, "", str(int(truth)), "operator differs from the order of Q"))
         for name, v, truth in (("<", lt, s < 0), (">", gt, s > 0)):
             if bool(v) != truth:
-                if abs(cv) > 1 and sg(cv) == s:
-                    out.append((S_LTGT[0], S_LTGT[1], str(int(truth)), "operator%s false although compare() = %d" % (name, cv)))
-                else:
-                    out.append(("Rational::operator" + name, "", str(int(truth)), "operator differs from the order of Q"))
-        if (lt + eq + gt) != 1 and not (abs(cv) > 1):
+                out.append(("Rational::operator" + name, "", str(int(truth)), "operator differs from the order of Q (compare() = %d)" % cv))
+        if (lt + eq + gt) != 1:
             out.append(("Rational trichotomy", "", "exactly one of < == >", "trichotomy fails"))
         return out
     return out
